@@ -137,6 +137,7 @@ def spell(opt_short, opt_long, val, style):
     return {0: ["-" + opt_short, val], 1: ["-" + opt_short + val], 2: ["--" + opt_long + "=" + val], 3: ["--" + opt_long, val]}[style]
 
 
+CLAIMS = ["i:num=42", "s:name=val", "b:flag=true", "i:exp=4102444800", "i:exp=2147483648", "i:big=9007199254740993", "i:neg=-2147483649", "b:flag=false", "i:hex=0x7fffffffffff", "s:sub=a b", "i:nbf=-9223372036854775807", "i:exp=9223372036854775807"]
 def run_genver_case(case):
     k = KEYS[case["key"]]; with_alg = case["key_has_alg"]; prov = case["prov"]
     if prov == "gnutls" and k["alg"] == "ES256K": prov = "openssl"
@@ -145,7 +146,13 @@ def run_genver_case(case):
     gargs = spell("k", "key", gk, case["k_style_g"])
     if not with_alg or case["always_alg"]: gargs += spell("a", "algorithm", k["alg"], case["a_style_g"])
     if case["no_iat"]: gargs += [["-n"], ["--no-iat"]][case["flag_style"]]
-    if case["claim"]: gargs += spell("c", "claim", ["i:num=42", "s:name=val", "b:flag=true"][case["claim"] - 1], case["c_style"])
+    if case.get("claim"): gargs += spell("c", "claim", ["i:num=42", "s:name=val", "b:flag=true"][case["claim"] - 1], case["c_style"])
+    seen_keys = set()
+    for ci in case.get("claims", []):   # several claims of every type in one run; integers as strtol(…, 0) reads them, far-future expiry included
+        ck = CLAIMS[ci % len(CLAIMS)].split("=")[0].split(":")[1]
+        if ck in seen_keys: continue   # the same claim twice is refused (EXIST), rightly
+        seen_keys.add(ck)
+        gargs += spell("c", "claim", CLAIMS[ci % len(CLAIMS)], case["c_style"]); cls("generate-with-claim:" + CLAIMS[ci % len(CLAIMS)].split("=")[0])
     if case["json"]: gargs += spell("j", "json", '{"sub":"x","arr":[1,2]}', case["j_style"])
     if case.get("print_g"): gargs += spell("p", "print", "cat", case["p_style_g"])
     if case["quiet_g"]: gargs += [["-q"], ["--quiet"]][case["flag_style"]]
@@ -268,7 +275,7 @@ verify_cases = st.fixed_dictionaries({"n": st.one_of(st.sampled_from(LENS), st.i
 sty = st.integers(0, 3)
 def genver_cases():
     return st.fixed_dictionaries({"key": st.sampled_from(sorted(KEYS)), "key_has_alg": st.booleans(), "always_alg": st.booleans(), "prov": st.sampled_from(["openssl", "gnutls"]), "k_style_g": sty, "a_style_g": sty, "k_style_v": sty, "a_style_v": sty,
-                                  "c_style": sty, "j_style": sty, "no_iat": st.booleans(), "claim": st.integers(0, 3), "json": st.booleans(), "quiet_g": st.booleans(), "flag_style": st.integers(0, 1), "vq": st.integers(0, 2),
+                                  "c_style": sty, "j_style": sty, "no_iat": st.booleans(), "claim": st.just(0), "claims": st.lists(st.integers(0, 11), min_size=0, max_size=3), "json": st.booleans(), "quiet_g": st.booleans(), "flag_style": st.integers(0, 1), "vq": st.integers(0, 2),
                                   "print_g": st.booleans(), "p_style_g": sty, "verbose_g": st.booleans(), "print_v": st.booleans(), "p_style_v": sty})
 convert_cases = st.fixed_dictionaries({"keys": st.lists(st.tuples(st.sampled_from(KEYTYPES), st.sampled_from(["priv", "pub"]), st.booleans(), st.integers(0, 2)), min_size=1, max_size=8), "o_style": sty, "d_style": sty, "quiet": st.booleans(), "flag_style": st.integers(0, 1)})
 
